@@ -57,6 +57,8 @@ pub(crate) trait CKKSMulDefault<BE: Backend> {
         Scratch<BE>: ScratchAvailable + ScratchTakeCore<BE>,
     {
         let (res_log_budget, res_log_delta, cnv_offset) = get_mul_ct_params(dst, a, b)?;
+        crate::ensure_compact("ckks_mul_into", a.effective_k(), a.base2k().as_usize(), a.size())?;
+        crate::ensure_compact("ckks_mul_into", b.effective_k(), b.base2k().as_usize(), b.size())?;
 
         let tensor_layout = GLWELayout {
             n: dst.n(),
@@ -95,6 +97,8 @@ pub(crate) trait CKKSMulDefault<BE: Backend> {
         Scratch<BE>: ScratchAvailable + ScratchTakeCore<BE>,
     {
         let (res_log_budget, res_log_delta, cnv_offset) = get_mul_ct_params(dst, dst, a)?;
+        crate::ensure_compact("ckks_mul_assign", dst.effective_k(), dst.base2k().as_usize(), dst.size())?;
+        crate::ensure_compact("ckks_mul_assign", a.effective_k(), a.base2k().as_usize(), a.size())?;
 
         let tensor_layout = GLWELayout {
             n: dst.n(),
@@ -154,6 +158,7 @@ pub(crate) trait CKKSMulDefault<BE: Backend> {
         Scratch<BE>: ScratchAvailable + ScratchTakeCore<BE>,
     {
         let (res_log_budget, res_log_delta, cnv_offset) = get_mul_ct_params(dst, a, a)?;
+        crate::ensure_compact("ckks_square_into", a.effective_k(), a.base2k().as_usize(), a.size())?;
 
         let tensor_layout = GLWELayout {
             n: dst.n(),
@@ -182,6 +187,7 @@ pub(crate) trait CKKSMulDefault<BE: Backend> {
         Scratch<BE>: ScratchAvailable + ScratchTakeCore<BE>,
     {
         let (res_log_budget, res_log_delta, cnv_offset) = get_mul_ct_params(dst, dst, dst)?;
+        crate::ensure_compact("ckks_square_assign", dst.effective_k(), dst.base2k().as_usize(), dst.size())?;
 
         let tensor_layout = GLWELayout {
             n: dst.n(),
@@ -253,6 +259,7 @@ pub(crate) trait CKKSMulDefault<BE: Backend> {
     {
         crate::ensure_base2k_match("ckks_mul_pt_vec_znx_into", a.base2k().as_usize(), pt_znx.base2k().as_usize())?;
         let (res_log_budget, res_log_delta, cnv_offset) = get_mul_pt_params(dst, a, pt_znx)?;
+        crate::ensure_compact("ckks_mul_pt_vec_znx_into", a.effective_k(), a.base2k().as_usize(), a.size())?;
         self.glwe_mul_plain(
             cnv_offset,
             &mut dst.to_mut(),
@@ -279,6 +286,7 @@ pub(crate) trait CKKSMulDefault<BE: Backend> {
     {
         crate::ensure_base2k_match("ckks_mul_pt_vec_znx_assign", dst.base2k().as_usize(), pt_znx.base2k().as_usize())?;
         let (res_log_budget, res_log_delta, cnv_offset) = get_mul_pt_params(dst, dst, pt_znx)?;
+        crate::ensure_compact("ckks_mul_pt_vec_znx_assign", dst.effective_k(), dst.base2k().as_usize(), dst.size())?;
         let dst_effective_k = dst.effective_k();
 
         self.glwe_mul_plain_assign(
